@@ -19,6 +19,7 @@ EXPLANATION = (
     "only after the loop that raises KeyError for a differing existing key (unless overwrite), and that test does not "
     "conflate a missing key with a None value; (e) every write of <job>._id outside __init__ is accompanied by a write "
     "of the id-derived cached state point; (f) _save skips the migration only when old and new id are equal."
+    ' (k) Job.move makes sure the destination workspace directory exists before renaming the job directory into it.'
 )
 UNDECIDED = "Byte-identical payloads, both jobs unchanged after DestinationExistsError and independence of deep copies are not decided."
 
